@@ -1000,14 +1000,75 @@ Round3Coverage ==
   /\ \A kd \in TXKinds, ce \in TXEarly : \E q \in TXCases : q.kd = kd /\ q.ce = ce /\ TXLeaves(q.te)
   /\ \A pl \in {"top", "fn"}, en \in {"none", "for"} : \E q \in TXCases : q.pl = pl /\ q.en = en
 
+\* ======================= family UL: labels that the exit does NOT name ==========================================================
+\* (round 4, reviewer) In CF / FP / TX a statement carries a label exactly when the exit names it (L on the construct, M on the
+\* enclosing one), in LS the exit always names one label of the stack: no program had a label standing by, unused.  A label changes
+\* nothing for an exit that does not name it: a plain `break` / `continue` still binds to the innermost switch / loop, whether that
+\* statement, a statement between it and the exit, or a statement around it is labelled; an exit naming another label passes through.
+\*   kd  : the statement under test (five loops, switch, block, and the non-breakable statements if, try / finally)
+\*   ex  : none / break / continue / break L / continue L / break M / continue M / return v        (L: on kd, M: on the enclosing one)
+\*   en  : the enclosing construct (as CF)
+\*   lab : which labels stand there although the exit does not need them: "in" = L on kd, "out" = M on the enclosing statement, "both"
+\*   d   : number of labels on kd when it is labelled (K: L: stmt for 2)          pl : script level / function whose call is an operand
+ULKinds == LoopKinds \cup {"if", "try"}
+ULExits == {"none", "break", "continue", "breakL", "continueL", "breakM", "continueM", "returnv"}
+ULEncls == {"none", "if", "while", "dowhile", "for", "forin", "forof", "switch", "block", "tryfinally"}
+ULLabs == {"in", "out", "both"}
+ULConstruct(kd, body) ==
+  CASE kd = "if" -> SIf(Bin("<", N, ENum(3)), SBlock(body), SBlock(<<SLog(EStr("else"))>>))
+    [] kd = "try" -> STry(SBlock(body), "e", NoS, SBlock(<<SLog(EStr("F"))>>))
+    [] OTHER -> Construct(kd, body)
+ULHasL(c) == c.lab \in {"in", "both"} \/ c.ex \in {"breakL", "continueL"} \/ c.kd = "block"
+ULInner(c) ==
+  LET c0 == ULConstruct(c.kd, Body(c.ex, IF IsLoop(c.kd) THEN 2 ELSE 1))
+      c1 == IF ULHasL(c) THEN SLabel("L", c0) ELSE c0
+      c2 == IF ULHasL(c) /\ c.d = 2 THEN SLabel("K", c1) ELSE c1
+  IN <<Set("n", ENum(0)), c2, SLog(ENum(3))>>
+ULCore(c) == <<SVar(<<Decl("n", ENum(0)), Decl("m", ENum(0))>>)>>
+             \o Enclose(c.en, IF c.lab \in {"out", "both"} THEN "breakM" ELSE c.ex, ULInner(c)) \o <<SLog(ENum(4))>>
+ULProg(c) == IF c.pl = "top" THEN Prog(ULCore(c) \o <<SLog(ENum(50))>>)
+             ELSE Prog(<<SFun("f", <<>>, ULCore(c) \o <<SRet(ENum(7))>>), SLog(Plus(CallF, ENum(100))), SLog(ENum(50))>>)
+ULAll == [kd : ULKinds, ex : ULExits, en : ULEncls, lab : ULLabs, d : 1..2, pl : {"top", "fn"}]
+ULValid(c) ==
+  /\ (c.ex = "break" => IsLoop(c.kd) \/ c.kd = "switch" \/ EnclIsLoop(c.en) \/ c.en = "switch")
+  /\ (c.ex = "continue" => IsLoop(c.kd) \/ EnclIsLoop(c.en))
+  /\ (c.ex = "continueL" => IsLoop(c.kd))
+  /\ (c.ex = "breakM" => c.en # "none")
+  /\ (c.ex = "continueM" => EnclIsLoop(c.en))
+  /\ (c.ex = "returnv" => c.pl = "fn")
+  /\ (c.lab \in {"out", "both"} => c.en # "none")
+  /\ (c.d = 2 => ULHasL(c))
+  \* at least one label stands there that the exit does not name (the others are CF programs)
+  /\ (c.lab = "in" => c.ex \notin {"breakL", "continueL"} /\ ~(c.kd = "block" /\ c.d = 1))
+  /\ (c.lab = "out" => c.ex \notin {"breakM", "continueM"})
+  /\ (c.lab = "both" /\ c.ex \in {"breakM", "continueM"} => ~(c.kd = "block" /\ c.d = 1))
+\* quick: every (statement, exit) with the unused label on the statement, alone and inside a `for`; two unused labels for the plain
+\* exits in a function, alone / in a while / in a switch; the unused label on every enclosing construct (alone and next to one on
+\* the statement) for a loop and a switch with the plain exits and `break L`
+ULD1(kd) == IF kd = "block" THEN 2 ELSE 1
+ULQuickSel(c) ==
+  \/ (c.lab = "in" /\ c.d = ULD1(c.kd) /\ c.en \in {"none", "for"} /\ c.pl = (IF c.ex = "returnv" THEN "fn" ELSE "top"))
+  \/ (c.lab = "in" /\ c.d = 2 /\ c.ex \in {"break", "continue"} /\ c.en \in {"none", "while", "switch"} /\ c.pl = "fn")
+  \/ (c.lab \in {"out", "both"} /\ c.d = 1 /\ c.kd \in {"forin", "switch"} /\ c.ex \in {"break", "continue", "breakL"} /\ c.pl = "fn")
+ULCases == {c \in ULAll : ULValid(c) /\ (~Quick \/ ULQuickSel(c))}
+\* law of the quick selection (an invariant of the enumeration run)
+Round4Coverage ==
+  /\ \A kd \in ULKinds, ex \in ULExits, en \in {"none", "for"} :
+        LET c == [kd |-> kd, ex |-> ex, en |-> en, lab |-> "in", d |-> ULD1(kd), pl |-> IF ex = "returnv" THEN "fn" ELSE "top"] IN ULValid(c) => c \in ULCases
+  /\ \A kd \in ULKinds, ex \in {"break", "continue"} : \E q \in ULCases : q.kd = kd /\ q.ex = ex /\ q.d = 2 /\ q.lab = "in" /\ q.pl = "fn"
+  /\ \A en \in ULEncls \ {"none"}, lab \in {"out", "both"}, ex \in {"break", "breakL"} : \E q \in ULCases : q.en = en /\ q.lab = lab /\ q.ex = ex
+  /\ \A en \in {"while", "dowhile", "for", "forin", "forof"}, lab \in {"out", "both"} :
+        \E q \in ULCases : q.en = en /\ q.lab = lab /\ q.ex = "continue" /\ q.kd = "switch"
+  /\ \A d \in 1..2, pl \in {"top", "fn"} : \E q \in ULCases : q.d = d /\ q.pl = pl
+
 \* ======================= the case space ===========================================================
 FamilyProg(cs) == CASE cs.fam = "CF" -> CFProg(cs.c) [] cs.fam = "SW" -> SWProg(cs.c) [] cs.fam = "EO" -> EOProg(cs.c.j)
                     [] cs.fam = "HO" -> HOProg(cs.c.j) [] cs.fam = "CV" -> CVProg(cs.c.j) [] cs.fam = "CL" -> CLProg(cs.c)
                     [] cs.fam = "CH" -> CHProg(cs.c) [] cs.fam = "IR" -> IRFamProg(cs.c)
                     [] cs.fam = "SH" -> SHProg(cs.c) [] cs.fam = "BL" -> BLProg(cs.c)
                     [] cs.fam = "XA" -> XAProg(cs.c) [] cs.fam = "FP" -> FPProg(cs.c) [] cs.fam = "LS" -> LSProg(cs.c)
-                    [] cs.fam = "CP" -> CPProg(cs.c) [] cs.fam = "TX" -> TXProg(cs.c)
-Fams == IF "FAMS" \in DOMAIN IOEnv THEN IOEnv.FAMS ELSE "CF SW EO HO CV CL CH IR SH BL XA FP LS CP TX"
+                    [] cs.fam = "CP" -> CPProg(cs.c) [] cs.fam = "TX" -> TXProg(cs.c) [] cs.fam = "UL" -> ULProg(cs.c)
+Fams == IF "FAMS" \in DOMAIN IOEnv THEN IOEnv.FAMS ELSE "CF SW EO HO CV CL CH IR SH BL XA FP LS CP TX UL"
 Has(f) == \E j \in 1..(Len(Fams) - 1) : SubSeq(Fams, j, j + 1) = f
 AllCases == (IF Has("CF") THEN {[fam |-> "CF", c |-> c] : c \in CFCases} ELSE {})
             \cup (IF Has("SW") THEN {[fam |-> "SW", c |-> c] : c \in SWCases} ELSE {})
@@ -1024,6 +1085,7 @@ AllCases == (IF Has("CF") THEN {[fam |-> "CF", c |-> c] : c \in CFCases} ELSE {}
             \cup (IF Has("LS") THEN {[fam |-> "LS", c |-> c] : c \in LSCases} ELSE {})
             \cup (IF Has("CP") THEN {[fam |-> "CP", c |-> c] : c \in CPCases} ELSE {})
             \cup (IF Has("TX") THEN {[fam |-> "TX", c |-> c] : c \in TXCases} ELSE {})
+            \cup (IF Has("UL") THEN {[fam |-> "UL", c |-> c] : c \in ULCases} ELSE {})
 
 \* ======================= state machine around MiniJS ===============================================
 VARIABLES rec_i, cur, mst                \* rec_i: judged record; cur: enumerated case; mst: machine state
